@@ -332,7 +332,10 @@ def finish(pid, tier, seed, m, problems, wall, nshards):
         'wall_s': round(wall, 2),
         'violations': len(new_viol),
     }
-    with open(os.path.join(EVIDENCE, f'{pid}.json'), 'w') as f:
+    # evidence/ describes runs against /repo itself; a run against a scratch tree (VERIF_REPO=...) records under out/
+    evdir = EVIDENCE if os.path.realpath(REPO) == '/repo' else os.path.join(OUT, 'evidence-scratch')
+    os.makedirs(evdir, exist_ok=True)
+    with open(os.path.join(evdir, f'{pid}.json'), 'w') as f:
         json.dump(ev, f, indent=1, sort_keys=False)
     for ln in lines:
         print(ln)
